@@ -280,6 +280,10 @@ def expected_parse(s, version, flags):
             v = padded_value(s)
             if v is not None:
                 return ("ok", 4, v)
+            # a dot-separated field without a single digit has no octet to zero-fill: whatever leniency ZEROFILL has about signs or blanks,
+            # such a text denotes no IPv4 address (the IPv6 reading, if version allows one, is not constrained here)
+            if version == 4 and any(not any(c.isdigit() for c in f) for f in s.split(".")):
+                return ("reject",)
         if want6 and not want4:
             v = std6(s)
             if v is not None:
